@@ -202,7 +202,7 @@ def _add_variants():
 
 _add_variants()
 CUTOFFS = [0.0, 0.0, 1e-5, 1e-3]
-DATA_KINDS = ["perfect", "pinhole", "slit", "2d", "sesans", "sesans_tight"]
+DATA_KINDS = ["perfect", "pinhole", "slit", "2d", "2d_xres", "sesans", "sesans_tight"]
 SV_MODELS = ["sphere", "cylinder", "core_multi_shell", "sphere@hardsphere", "sphere@hayter_msa", "hardsphere", "hayter_msa",
              "broad_peak", "pyscalar",
              "pyplug", "allpd"]
@@ -367,6 +367,12 @@ def _new_data(kind):
     if kind == "2d":
         qx = np.linspace(-0.12, 0.12, 5)
         return sdata.empty_data2D(qx, qx, resolution=0.02)
+    if kind == "2d_xres":
+        # every pixel selected (no origin, nothing masked), resolution along x only: dqy is all zeros
+        qx = np.linspace(0.02, 0.12, 4)
+        d = sdata.empty_data2D(qx, qx, resolution=0.03)
+        d.dqy_data = np.zeros_like(d.dqy_data)
+        return d
     if kind == "sesans":
         return sdata.empty_sesans(np.linspace(200.0, 3000.0, 7))
     if kind == "sesans_tight":
@@ -1046,7 +1052,7 @@ def gen_history(w, n_ops):
             m = w.choice(models) if models and w.random() < 0.6 else add_model()
             if m["model"] == "allpd" or True:
                 kind = w.choice(DATA_KINDS) if m["model"] not in GENERIC else "perfect"
-                if m["model"] in ("hardsphere", "broad_peak", "allpd", "pyplug", "_spherepy") and kind == "2d":
+                if m["model"] in ("hardsphere", "broad_peak", "allpd", "pyplug", "_spherepy") and kind.startswith("2d"):
                     kind = "pinhole"
                 op = {"op": "direct", "id": new_id("d"), "m": m["id"], "data": kind, "model": m["model"],
                       "cutoff": w.choice([1e-5, 0.0])}
@@ -1057,7 +1063,7 @@ def gen_history(w, n_ops):
             if live:
                 d = w.choice(live)
                 keys = [x for x in sorted(PARS[d["model"]]) if x.split("#")[0] not in ("pd4", "pd140") and
-                        not (d["data"] != "2d" and x == "mag")]
+                        not (not d["data"].startswith("2d") and x == "mag")]
                 ops.append({"op": "direct_call", "d": d["id"], "model": d["model"], "pars": w.choice(keys)})
                 if w.random() < 0.3:
                     ops.append(dict(ops[-1]))
@@ -1166,6 +1172,19 @@ def sweep_configs(tier):
         for did in ids:
             ops.append({"op": "direct_call", "d": did, "model": model, "pars": pk[0]})
         out.append({"kind": "history", "ops": ops, "recheck_seed": 3, "family": "calculators_over_data_kinds"})
+    # two models built from one library: a kernel of the one the caller forgot must survive
+    # the release of the other, and release followed by re-creation must work
+    for model in ("sphere", "sphere@hardsphere", "cylinder"):
+        call = {"op": "call", "model": model, "fn": "Iq", "pars": "def", "cutoff": 0.0, "mono": False}
+        ops = [{"op": "load", "id": "m1", "model": model, "dtype": "double"},
+               {"op": "load", "id": "m2", "model": model, "dtype": "double"},
+               {"op": "make_kernel", "id": "k1", "m": "m1", "q": "q3", "model": model}, dict(call, k="k1"),
+               {"op": "make_kernel", "id": "k2", "m": "m2", "q": "q5", "model": model}, dict(call, k="k2"),
+               {"op": "forget", "x": "m2"}, dict(call, k="k2"),
+               {"op": "release_model", "m": "m1"}, dict(call, k="k2"),
+               {"op": "make_kernel", "id": "k3", "m": "m1", "q": "q3", "model": model}, dict(call, k="k3"),
+               dict(call, k="k2"), {"op": "forget", "x": "k3"}, {"op": "release_model", "m": "m1"}, dict(call, k="k2")]
+        out.append({"kind": "history", "ops": ops, "recheck_seed": 6, "family": "two_models_one_library"})
     # SasView's P*S built from two instances, then the structure factor on its own again
     for sf, wname in (("hayter_msa", "radius_effective"), ("hardsphere", None)):
         ev = {"op": "sv_eval", "q": "q3", "fn": "evalDistribution"}
